@@ -102,11 +102,24 @@ def load_known(prop: str):
     return [f for f in data.get("findings", []) if f.get("property") == prop]
 
 
+def jsonsafe(x):
+    """anything -> JSON-representable (dict keys become strings, bytes/sets/objects their repr)"""
+    if isinstance(x, dict):
+        return {(k if isinstance(k, str) else repr(k)): jsonsafe(v) for k, v in x.items()}
+    if isinstance(x, (list, tuple)):
+        return [jsonsafe(v) for v in x]
+    if isinstance(x, (str, int, bool)) or x is None:
+        return x
+    if isinstance(x, float):
+        return x if x == x and x not in (float("inf"), float("-inf")) else repr(x)
+    return repr(x)
+
+
 def write_replay(prop, tier, seed, payload) -> str:
     os.makedirs(f"{VERIF}/out", exist_ok=True)
     path = f"{VERIF}/out/replay-{prop}-{tier}-{seed}.json"
     with open(path, "w") as f:
-        json.dump(payload, f, indent=1, default=repr)
+        json.dump(jsonsafe(payload), f, indent=1)
     return path
 
 
@@ -114,8 +127,8 @@ def jsonable(x):
     try:
         json.dumps(x)
         return x
-    except TypeError:
-        return repr(x)[:2000]
+    except (TypeError, ValueError):
+        return jsonsafe(x)
 
 
 def decide(prop: str, tier: str, seed: int) -> int:
@@ -211,7 +224,7 @@ def decide(prop: str, tier: str, seed: int) -> int:
             log(f"[{prop}] widened search raised {type(e).__name__}: {e}")
     if new:
         violations = len(new)
-        new.sort(key=lambda f: len(json.dumps(f.replay, default=repr)))
+        new.sort(key=lambda f: len(json.dumps(jsonsafe(f.replay))))
         f0 = new[0]
         replay_path = write_replay(prop, tier, seed, {
             "property": prop, "kind": "failing-input", "signature": f0.signature, "what": f0.what,
@@ -265,7 +278,7 @@ def decide(prop: str, tier: str, seed: int) -> int:
         os.makedirs(f"{VERIF}/out", exist_ok=True)
         ev_path = f"{VERIF}/out/evidence-scratch-{prop}.json"
     with open(ev_path, "w") as f:
-        json.dump(ev, f, indent=1, default=repr)
+        json.dump(jsonsafe(ev), f, indent=1)
     ctx.cleanup()
     log(f"[{prop}] {tier}: obligations {cov['discharged']}/{cov['obligations']}, evaluations {res.evaluations} "
         f"({len(res.nontrivial)} distinct non-trivial), mismatches {len(res.mismatches)}, "
